@@ -580,6 +580,15 @@ func (b *Builder) callMulti(call *ast.CallExpr, nres int) []*Term {
 		}
 		return out
 	}
+	// a local function variable that only ever holds literals of this function: dispatch on
+	// which literal it holds (decided by the store at exploration) and inline that body
+	if id, ok := fun.(*ast.Ident); ok {
+		if v, ok := b.info.Uses[id].(*types.Var); ok && !isPkgLevel(v) && b.inst.Depth < b.maxDepth {
+			if lits := b.funcVarLits(v); len(lits) > 0 {
+				return b.dispatchLits(call, id, lits)
+			}
+		}
+	}
 	// dynamic call through a function value
 	ft := b.expr(fun)
 	var args []*Term
@@ -705,4 +714,137 @@ func (b *Builder) closedInitTerm(pk *packages.Package, call *ast.CallExpr) *Term
 		return nil
 	}
 	return t
+}
+
+// funcVarLits: every assignment to the local function variable v (in the
+// function that declares it) is a function literal; returns them.
+func (b *Builder) funcVarLits(v *types.Var) []*ast.FuncLit {
+	root := b.inst
+	for root != nil && root.Fn == nil {
+		if root.Lexical != nil {
+			root = root.Lexical
+		} else {
+			root = root.Parent
+		}
+	}
+	if root == nil || root.Fn == nil {
+		return nil
+	}
+	fs := b.P.Funcs[root.Fn.Origin()]
+	if fs == nil {
+		return nil
+	}
+	info := fs.Pkg.TypesInfo
+	var lits []*ast.FuncLit
+	ok := true
+	ast.Inspect(fs.Decl.Body, func(n ast.Node) bool {
+		switch x := n.(type) {
+		case *ast.AssignStmt:
+			for i, l := range x.Lhs {
+				id, isId := l.(*ast.Ident)
+				if !isId || (info.Defs[id] != v && info.Uses[id] != v) {
+					continue
+				}
+				if len(x.Rhs) != len(x.Lhs) {
+					ok = false
+					continue
+				}
+				if fl, isLit := ast.Unparen(x.Rhs[i]).(*ast.FuncLit); isLit {
+					lits = append(lits, fl)
+				} else if tv, has := info.Types[x.Rhs[i]]; !has || !tv.IsNil() {
+					ok = false
+				}
+			}
+		case *ast.ValueSpec:
+			for i, nm := range x.Names {
+				if info.Defs[nm] != v {
+					continue
+				}
+				if i < len(x.Values) {
+					if fl, isLit := ast.Unparen(x.Values[i]).(*ast.FuncLit); isLit {
+						lits = append(lits, fl)
+					} else {
+						ok = false
+					}
+				}
+			}
+		case *ast.UnaryExpr:
+			if id, isId := ast.Unparen(x.X).(*ast.Ident); isId && x.Op == token.AND && info.Uses[id] == v {
+				ok = false
+			}
+		}
+		return true
+	})
+	if !ok {
+		return nil
+	}
+	return lits
+}
+
+// dispatchLits builds `f(args)` for a variable holding one of lits.
+func (b *Builder) dispatchLits(call *ast.CallExpr, id *ast.Ident, lits []*ast.FuncLit) []*Term {
+	var args []*Term
+	for _, a := range call.Args {
+		args = append(args, b.expr(a))
+	}
+	ft := b.expr(id)
+	nres := 0
+	if tv, ok := b.info.Types[call.Fun]; ok {
+		if sig, ok := tv.Type.Underlying().(*types.Signature); ok {
+			nres = sig.Results().Len()
+		}
+	}
+	temps := make([]*Var, nres)
+	for i := range temps {
+		temps[i] = b.tempVar("dres", nil)
+	}
+	b.flush(call.Pos())
+	done := b.label()
+	for _, lit := range lits {
+		name := ""
+		for k, li := range b.G.Lits {
+			if li.Lit == lit {
+				name = k
+			}
+		}
+		if name == "" {
+			continue
+		}
+		tN, fN := b.label(), b.label()
+		br := b.newNode(NBranch, call.Pos())
+		br.Cond = &Term{Op: "isclosure", Name: name, Args: []*Term{ft}}
+		b.emit(br)
+		br.Succ = []*Node{tN, fN}
+		b.cur = nil
+		b.start(tN)
+		outs := b.inlineLit(lit, args, call.Pos(), nres)
+		for i, tv := range temps {
+			if i < len(outs) {
+				b.assignVar(tv, outs[i], call.Pos())
+			}
+		}
+		b.jump(done)
+		b.start(fN)
+	}
+	// none of the known literals (nil function value or a literal not yet evaluated): opaque call
+	t := &Term{Op: "call", Name: "dyn", Args: append([]*Term{ft}, args...), Pos: call.Pos()}
+	b.pending = append(b.pending, t)
+	b.flush(call.Pos())
+	for i, tv := range temps {
+		if nres <= 1 {
+			b.assignVar(tv, t, call.Pos())
+		} else {
+			b.assignVar(tv, &Term{Op: "res", Name: strconv.Itoa(i), Args: []*Term{t}, Pos: call.Pos()}, call.Pos())
+		}
+	}
+	b.jump(done)
+	b.start(done)
+	out := make([]*Term, nres)
+	for i, tv := range temps {
+		out[i] = varTerm(tv)
+	}
+	if nres == 0 {
+		return nil
+	}
+	return out
 }
